@@ -728,6 +728,11 @@ func (t *FnTrans) contractCall(x *ssa.Call, callee *ssa.Function, con *Contract,
 		if lbl == "" {
 			lbl = fmt.Sprint(k + 1)
 		}
+		if t.con != nil && t.con.AssumeCalleeRequires {
+			t.assumps = append(t.assumps, Assump{Guard: reach, F: Formula{Clause: c, Env: pre}, Why: "precondition of " + name + " ASSUMED at this call (assumecalleerequires)"})
+			t.note("preconditions of %s are assumed, not proved, at its call sites in this function (assumecalleerequires)", name)
+			continue
+		}
 		t.addObl("requires@call", fnKey(callee)+":"+lbl, reach, Formula{Clause: c, Env: pre}, x.Pos(), c.Text)
 	}
 	// frame
